@@ -535,7 +535,48 @@ def check_nest(case):
                                            'nest-dest:' + ('identity' if not case.get('dest') else 'given')])
 
 
+SHARED_INNER = ['TRANSPOSE(%s)', '%s', 'IF(TRUE,%s)', 'TRANSPOSE(TRANSPOSE(%s))']
+SHARED_PAIRS = [('%s&"x"', '%s+1'), ('%s+1', '%s&"x"'), ('%s=""', '%s+0'), ('%s&""', '%s*1'), ('%s=0', '%s&"z"')]
+SHARED_DATA = [[[None, 2.0], ['a', None]], [[None, None], [None, None]], [[1.0, None], [None, True]]]
+
+
+def enum_shared():
+    for inner in SHARED_INNER:
+        for pi, pair in enumerate(SHARED_PAIRS):
+            for di, data in enumerate(SHARED_DATA):
+                for comb in ('&', '='):
+                    yield {'k': 'shared', 'inner': inner, 'pair': list(pair), 'd': data, 'comb': comb}
+
+
+def check_shared(case):
+    """One sub-expression that passes blanks through, used twice in a formula by operators that read a blank differently
+    (as text, as number): (f(T)) comb (g(T)) must equal the same combination of f(T) and g(T) evaluated in cells of their
+    own (added after seed c05-a-r4)."""
+    data = [[BLANK if v is None else v for v in row] for row in case['d']]
+    inputs = {'B7:C8': data}
+    t = case['inner'] % 'B7:C8'
+    f1, f2 = case['pair'][0] % t, case['pair'][1] % t
+    d = dest_ref((2, 2))
+    e1, e2 = run_cell(d, '=' + f1, inputs), run_cell(d, '=' + f2, inputs)
+    whole = run_cell(d, '=(%s)%s(%s)' % (f1, case['comb'], f2), inputs)
+    after = run_cell(d, '=' + f1, inputs)  # and the first part again, after the combined formula ran on the same inputs
+    fails = []
+    if e1 is None or e2 is None or whole is None:
+        return R([('shared|no-output|%s' % case['inner'].replace('%s', 'X'), 'no output: %r %r %r' % (e1, e2, whole))], nt=True)
+    exp = [[X.binary(case['comb'], e1[i][j], e2[i][j])[0] for j in range(2)] for i in range(2)]
+    pos = L.same_matrix(whole, exp)
+    if pos is not None:
+        fails.append(('shared|%s|%s|%s' % (case['inner'].replace('%s', 'X'), case['pair'][0].replace('%s', 'T') + case['comb'] + case['pair'][1].replace('%s', 'T'),
+                                          'shape' if pos == 'shape' else X.cls(whole[pos[0]][pos[1]])),
+                      '=(%s)%s(%s) gives %r, but the parts give %r and %r' % (f1, case['comb'], f2, whole, e1, e2)))
+    if after is None or L.same_matrix(after, e1) is not None:
+        fails.append(('shared|%s|inputs-changed' % case['inner'].replace('%s', 'X'), '=%s gave %r before and %r after the combined formula' % (f1, e1, after)))
+    return R(fails, nt=True, n=4, labels=['part:shared', 'shared-inner:' + case['inner'].replace('%s', 'X')])
+
+
 def check_case(case):
+    if case['k'] == 'shared':
+        return check_shared(case)
     if case['k'] == 'nest':
         return check_nest(case)
     if case['k'] == 'fit':
@@ -855,5 +896,6 @@ def _parts(tier, seed, q):
         ('enum', 'many', enum_many(tier, seed), 20, False),
         ('enum', 'many-kinds', enum_many_kinds(), 20, False),
         ('enum', 'nested', enum_nest(), 40, False),
+        ('enum', 'shared-subexpression', enum_shared(), 20, False),
         ('hyp', 'rand', 800 if q else 40000),
     ]
